@@ -61,4 +61,22 @@ MinPointOk(m, isErr, pts, d) == IF pts = <<>> THEN isErr
 Close3(p, q, eps) == Abs(p[1] - q[1]) <= eps /\ Abs(p[2] - q[2]) <= eps /\ Abs(p[3] - q[3]) <= eps
 UniqueAppendOk(appended, pts, a, eps) == appended = (IF \E q \in Range(pts) : Close3(q, a, eps) THEN 0 ELSE 1)
 Dist2(p, q) == (p[1] - q[1]) * (p[1] - q[1]) + (p[2] - q[2]) * (p[2] - q[2]) + (p[3] - q[3]) * (p[3] - q[3])
+
+\* ---- data objects as state machines ---------------------------------------------
+\* state = <<h, x, y, v, f, th, tx, ty, tv, tz>> (an ExtendedSpatialID and a TileXYZ); one setter per step.
+\* A tile zoom setter outside 0..35 is an error and leaves the zoom unchanged.
+ObjInit == <<0, 0, 0, 0, 0, 0, 0, 0, 0, 0>>
+ZoomInRange(z) == 0 <= z /\ z <= 35
+ObjStep(s, op) ==
+  CASE op[1] = "reset"   -> <<op[2], op[3], op[4], op[5], op[6], s[6], s[7], s[8], s[9], s[10]>>
+    [] op[1] = "setx"    -> [s EXCEPT ![2] = op[2]]
+    [] op[1] = "sety"    -> [s EXCEPT ![3] = op[2]]
+    [] op[1] = "setz"    -> [s EXCEPT ![5] = op[2]]
+    [] op[1] = "setzoom" -> [s EXCEPT ![1] = op[2], ![4] = op[3]]
+    [] op[1] = "tileh"   -> [s EXCEPT ![6] = IF ZoomInRange(op[2]) THEN op[2] ELSE @, ![7] = op[3]]
+    [] op[1] = "tilev"   -> [s EXCEPT ![9] = IF ZoomInRange(op[2]) THEN op[2] ELSE @, ![8] = op[3], ![10] = op[4]]
+RECURSIVE ObjRun(_, _)
+\* the sequence of states observed after each operation
+ObjRun(s, ops) == IF ops = <<>> THEN <<>>
+                  ELSE LET s2 == ObjStep(s, Head(ops)) IN <<s2>> \o ObjRun(s2, Tail(ops))
 =============================================================================
